@@ -1,8 +1,8 @@
 (* C08 -- The collector keeps state only for unfinished traces and live threads.
    Only pinned statements, closed by [exact lemma], with Print Assumptions. *)
 From Coq Require Import List NArith Bool.
-From FT Require Import Model.Base Model.Records Model.Spsc Model.Collector
-     Proofs.CollectorProofs Proofs.SpscProofs.
+From FT Require Import Model.Base Model.Local Model.Records Model.Spsc Model.Collector Model.System
+     Proofs.CollectorProofs Proofs.SpscProofs Proofs.DrainProofs Proofs.EndToEndProofs Proofs.WholeProofs.
 Import ListNotations.
 Open Scope N_scope.
 
@@ -30,8 +30,37 @@ Theorem C08_receiver_removed_only_when_empty :
   forall (A : Type) (c c' : chan A), pop_step c = (None, c') -> ch_ring c = [].
 Proof. exact @pop_none_empty. Qed.
 
+(* OVER THE SCHEDULER: in any reachable state, a commit -- or, cancelable, a cancel -- that
+   is in a registered thread's ring when a cycle begins: after that cycle (its drain
+   interleaved in any way with any threads) the collector retains nothing for that trace. *)
+Theorem C08_finished_trace_is_forgotten :
+  forall dbg ringcap stackcap qcap h0 h c,
+    let s := fst (run (sys_init dbg ringcap stackcap qcap) h0) in
+    let s1 := fst (run s (ACBegin :: h)) in
+    s_pc s = PIdle -> s_installed s = true -> no_process h -> s_pc s1 = PDrained ->
+    (exists t, In (t, CCommit c) (ring_commands s)) \/
+    (s_cancelable s1 = true /\ exists t, In (t, CDrop c) (ring_commands s)) ->
+    amem c (s_active (fst (step s1 ACProcess))) = false.
+Proof. exact finished_trace_is_forgotten. Qed.
+
+(* a process step adds an entry only for a StartCollect of its batch *)
+Theorem C08_retained_only_grows_by_starts :
+  forall s c,
+    s_pc s = PDrained ->
+    amem c (s_active (fst (step s ACProcess))) = true ->
+    amem c (s_active s) = true \/ In c (b_start (s_batch s)).
+Proof. exact retained_only_grows_by_starts. Qed.
+
+(* and no other step (but the installation of a reporter, which starts afresh) touches it *)
+Theorem C08_other_steps_keep_the_retained_set :
+  forall s a, a <> ACProcess -> (forall cb, a <> AInstall cb) -> s_active (fst (step s a)) = s_active s.
+Proof. exact step_keeps_active. Qed.
+
 Print Assumptions C08_commit_removes.
 Print Assumptions C08_cancel_removes.
 Print Assumptions C08_active_only_started.
 Print Assumptions C08_default_nothing_buffered.
 Print Assumptions C08_receiver_removed_only_when_empty.
+Print Assumptions C08_finished_trace_is_forgotten.
+Print Assumptions C08_retained_only_grows_by_starts.
+Print Assumptions C08_other_steps_keep_the_retained_set.
